@@ -407,7 +407,7 @@ impl Prop for Finds {
     fn streams(&self) -> Vec<Stream> {
         match self.0 {
             Which::Prefix => vec![Stream::new("gen", 6400, 320000), Stream::new("vocab", 8, 8), Stream::new("corpus", 640, 3285 * 2), Stream::new("big", 16, 160)],
-            Which::Typo => vec![Stream::new("gen", 2400, 48000), Stream::new("vocab", 8, 8), Stream::new("corpus", 480, 3285 * 2), Stream::new("letters", 260, 2600), Stream::new("big", 16, 160)],
+            Which::Typo => vec![Stream::new("gen", 2400, 48000), Stream::new("vocab", 8, 8), Stream::new("corpus", 480, 3285 * 2), Stream::new("letters", 600, 6000), Stream::new("big", 16, 160)],
             Which::Whole => vec![Stream::new("gen", 12800, 640000), Stream::new("vocab", 8, 8), Stream::new("corpus", 1600, 3285 * 2), Stream::new("big", 16, 160)],
             Which::SplitJoin => vec![Stream::new("gen", 6400, 192000), Stream::new("vocab", 8, 8), Stream::new("corpus", 960, 3285 * 2), Stream::new("big", 16, 160)],
         }
@@ -482,7 +482,18 @@ impl Prop for Finds {
                 } else {
                     let lang = LANGS[(idx % NL) as usize];
                     let v = gen::vocab(lang);
-                    (lang, cx.rng.pick(&v).to_string())
+                    let alpha = gen::lower_alphabet(lang);
+                    let w = match cx.rng.below(4) {
+                        0 => cx.rng.pick(&v).to_string(),
+                        1 => format!("{}{}", gen::rand_word(&mut cx.rng, &alpha, 3, 6), cx.rng.pick(&gen::suffixes(lang))),
+                        2 => {
+                            // three distinct letters, one of them doubled
+                            let a = [*cx.rng.pick(&alpha), *cx.rng.pick(&alpha), *cx.rng.pick(&alpha)];
+                            gen::rand_word(&mut cx.rng, &a, 5, 7)
+                        }
+                        _ => gen::rand_word(&mut cx.rng, &alpha, 5, 9),
+                    };
+                    (lang, w)
                 };
                 self.typo_exhaustive(cx, lang, &word);
             }
